@@ -120,6 +120,24 @@ pub fn build_input(family: &str, d: usize) -> Vec<u8> {
             v.extend_from_slice(&(d as u32).to_be_bytes());
             v.resize(5 + d, 5);
         }
+        f if f.starts_with("nest:") => {
+            // "nest:<prefix>:<body>": the prefix units once, then d units cycling through the body pattern
+            // (A = strict array of one element, O = object with one property, E = ECMA array with one property)
+            let parts: Vec<&str> = f.split(':').collect();
+            let unit = |c: char, v: &mut Vec<u8>| match c {
+                'A' => v.extend_from_slice(&[10, 0, 0, 0, 1]),
+                'O' => v.extend_from_slice(&[3, 0, 1, b'a']),
+                'E' => v.extend_from_slice(&[8, 0, 0, 0, 1, 0, 1, b'a']),
+                _ => panic!("unknown unit {}", c),
+            };
+            for c in parts[1].chars() {
+                unit(c, &mut v);
+            }
+            let body: Vec<char> = parts[2].chars().collect();
+            for i in 0..d {
+                unit(body[i % body.len()], &mut v);
+            }
+        }
         _ => panic!("unknown family {}", family),
     }
     v
@@ -226,6 +244,23 @@ pub fn run(run: &Run) {
             }
         }
     }
+    // mixed nests: a short prefix of one container kind above a long run of another (or of a repeating
+    // pattern), so that a depth counter that advances differently per kind, or a limit compared with ==,
+    // is stepped over
+    let prefixes: Vec<&str> = if thorough { vec!["A", "AA", "AAA", "O", "OO", "E", "AO", "OE", "EA"] } else { vec!["A", "AA", "O", "E", "AO"] };
+    let bodies: Vec<&str> = if thorough { vec!["A", "O", "E", "AO", "OE", "AE", "AOE", "AAO", "OOA"] } else { vec!["A", "O", "E", "AO"] };
+    for p in prefixes.iter() {
+        for b in bodies.iter() {
+            let top = max_len / 8;
+            let mut ladder: Vec<usize> = vec![120, 126, 127, 128, 129, 130, 254, 255, 256, 257, 300, 1000, 20_000, top];
+            if !thorough {
+                ladder = vec![126, 127, 128, 129, 130, 256, 300, 20_000, top];
+            }
+            for d in ladder {
+                cases.push((format!("nest:{}:{}", p, b), d, 2048));
+            }
+        }
+    }
     // every marker byte followed by a maximal length / count field
     for m in 0..=255usize {
         for fam in ["marker-then-ffffffff", "marker-then-10000000", "marker-then-ffff"] {
@@ -283,7 +318,7 @@ pub fn run(run: &Run) {
     let total = cases.len() as u64 + g;
     run.set("evaluations", json!(total));
     run.set("distinct_nontrivial", json!(total));
-    run.set("rule", json!("child-process cases: (family, depth or count on the ladder 1,10,100,... up to 16 MiB / unit plus rungs around 128/256/1000/5000/20000/50000, stack size); in-process: every sequence of <= 4 (quick) / 5 (thorough) tokens of a 17-token AMF0 grammar; all distinct"));
+    run.set("rule", json!("child-process cases: (family, depth or count on the ladder 1,10,100,... up to 16 MiB / unit plus rungs around 128/256/1000/5000/20000/50000, stack size); mixed nests nest:<prefix>:<body> (prefix of 1-3 containers of one kind above a run of another kind or of a repeating pattern) at rungs around 128/256 and deep; in-process: every sequence of <= 4 (quick) / 5 (thorough) tokens of a 17-token AMF0 grammar; all distinct"));
     run.set("exhaustive", json!(false));
     run.set("stack_sizes_kib", json!(stacks));
     run.set("max_input_bytes", json!(max_len));
